@@ -44,7 +44,7 @@ def _winit(modname, tier):
 def _work(idx):
     mod, tier = _W["mod"], _W["tier"]
     item = _W["items"][idx]
-    limit = getattr(mod, "ITEM_TIMEOUT", {"quick": 120, "thorough": 900})[tier]
+    limit = getattr(mod, "ITEM_TIMEOUT", {"quick": 120, "thorough": 300})[tier]
     t0 = time.time()
     try:
         signal.alarm(int(limit))
@@ -154,7 +154,7 @@ def run_items(modname, tier, indices=None, nproc=None):
     keys = [mod.item_key(it) for it in _W["items"]]
     idxs = list(range(n)) if indices is None else list(indices)
     random.Random(SEED).shuffle(idxs)
-    soft = getattr(mod, "ITEM_TIMEOUT", {"quick": 120, "thorough": 900})[tier]
+    soft = getattr(mod, "ITEM_TIMEOUT", {"quick": 120, "thorough": 300})[tier]
     hard = soft + 30
     q = queue.Queue()
     for i in idxs:
